@@ -441,7 +441,7 @@ func (w *Writer) get(ref Reference, canObjStm, scalarOnly bool) (obj Native, err
 			}
 		}
 		getInt := safeGetInteger(writerLengthGetter{w}, true)
-		return getFromObjStm(w, ref.Number(), entry.InStream, getInt, w.w.enc)
+		return getFromObjStm(w, ref.Number(), entry.InStream, getInt, w.w.enc, scalarOnly)
 	}
 
 	err = w.w.w.Flush()
